@@ -1888,6 +1888,18 @@ expr_get_type(arg_t *arg, asn1p_expr_t *expr) {
 	return A1TC_INVALID;
 }
 
+/*
+ * The type which defines the PER constraints of the given expression.
+ * X.680 #46.3, #47.3: the time types are (tagged) VisibleString types.
+ */
+static asn1p_expr_type_e
+expr_get_PER_type(arg_t *arg, asn1p_expr_t *expr) {
+	asn1p_expr_type_e etype = expr_get_type(arg, expr);
+	if(etype == ASN_BASIC_UTCTime || etype == ASN_BASIC_GeneralizedTime)
+		return ASN_STRING_VisibleString;
+	return etype;
+}
+
 static asn1c_integer_t
 PER_FROM_alphabet_characters(asn1cnst_range_t *range) {
 	asn1c_integer_t numchars = 0;
@@ -2204,7 +2216,7 @@ emit_member_PER_constraints(arg_t *arg, asn1p_expr_t *expr, const char *pfx) {
 	asn1cnst_range_t *range;
 	asn1p_expr_type_e etype;
 
-	etype = expr_get_type(arg, expr);
+	etype = expr_get_PER_type(arg, expr);
 
 	if((arg->flags & A1C_GEN_PER)
 	&& (expr->combined_constraints
@@ -3124,10 +3136,12 @@ emit_type_DEF(arg_t *arg, asn1p_expr_t *expr, enum tvm_compat tv_mode, int tags_
         OUT(", ");
 
 		if(arg->flags & A1C_GEN_PER) {
+            /* Same condition as in emit_member_PER_constraints() */
+            asn1p_expr_type_e etype = expr_get_PER_type(arg, expr);
             if(expr->combined_constraints
-               || expr->expr_type == ASN_BASIC_ENUMERATED
-               || expr->expr_type == ASN_CONSTR_CHOICE
-               || (expr->expr_type & ASN_STRING_KM_MASK)) {
+               || etype == ASN_BASIC_ENUMERATED
+               || etype == ASN_CONSTR_CHOICE
+               || (etype & ASN_STRING_KM_MASK)) {
                 OUT("&asn_PER_type_%s_constr_%d",
 					expr_id, expr->_type_unique_index);
 			} else {
